@@ -562,9 +562,16 @@ func (c *HAConfig) authBackendNames() map[string]string {
 			continue
 		}
 		var ids []string
+		tls := ""
 		for _, sv := range be.Servers {
 			if !sv.IsEmptySlot() {
 				ids = append(ids, fmt.Sprintf("%s:%d", sv.Addr, sv.Port))
+			}
+			for _, o := range sv.Rest {
+				if o == "ssl" {
+					// http:// and https:// users of one address have a backend each (FX-auth-backend-scheme-shared)
+					tls = "|tls"
+				}
 			}
 		}
 		sort.Strings(ids)
@@ -576,7 +583,7 @@ func (c *HAConfig) authBackendNames() map[string]string {
 				}
 			}
 		}
-		out[name] = "_auth_backend{" + strings.Join(ids, ",") + "|" + host + "}"
+		out[name] = "_auth_backend{" + strings.Join(ids, ",") + "|" + host + tls + "}"
 	}
 	return out
 }
